@@ -78,6 +78,19 @@ def run(ctx):
         rng.shuffle(extra)
         extra = extra[:300]
     behs += extra
+    # concretization of "no deadline pressure": the caller's context carries a deadline (20 s) that is far away but
+    # not beyond the (30 s) threshold of the no-timer runs; nothing in the spec depends on it
+    ddl = [dict(copy.deepcopy(b), ctx_ddl_ms=20000) for b in behs[:exhaustive_order] if not b["timerMay"]]
+    if not T:
+        rng.shuffle(ddl)
+        ddl = ddl[:120]
+    behs += ddl
+    # concretization of "the primary answers within the threshold": it really takes 700 ms, the threshold is 30 s
+    slow = [dict(copy.deepcopy(b), prim_delay_ms=700) for b in behs[:exhaustive_order]
+            if not b["timerMay"] and any(s_.get("a") == "PrimFinish" and s_.get("o") == "ans" for s_ in b["steps"])]
+    rng.shuffle(slow)
+    slow = slow[:(60 if T else 24)]
+    behs += slow
     tb = vlib.tlc_behaviours(ctx, "Fallback", "Fallback_gen_timer.cfg")
     if not T:
         rng.shuffle(tb)
@@ -89,8 +102,9 @@ def run(ctx):
                                  "EnvDeadline = TRUE", "EnvDeadline = FALSE"))
     cb = [b for b in cb if any(s["a"] == "Cancel" for s in b["steps"])]
     behs += cb
-    log("replaying %d behaviours (%d pure-order exhaustive, %d lazy-caller, %d error-after-response variants, %d timer, %d with cancel)" % (
-        len(behs), exhaustive_order, len(lazy), len(extra), len(tb), len(cb)))
+    log("replaying %d behaviours (%d pure-order exhaustive, %d lazy-caller, %d error-after-response variants, %d with a far caller deadline, "
+        "%d with a slow (700 ms) primary inside the 30 s threshold, %d timer, %d with cancel)" % (
+        len(behs), exhaustive_order, len(lazy), len(extra), len(ddl), len(slow), len(tb), len(cb)))
 
     binary = vlib.go_build(ctx, "drv_fallback")
     job = {"behaviours": behs, "random": 1500 if T else 300, "threshold_ms": 120, "stretch_ms": 300, "workers": 16}
